@@ -367,6 +367,91 @@ func c16(c *Ctx) {
 			}
 		}
 		r.Check("cleanup:closes-sink", okClose, cleanup.Pos(), "cleanup closes the Sink so the drain loop terminates")
+		// a failed write is never swallowed: from the failing edge of the test of Write's error no completion of a
+		// stream is reachable inside innerRun (the function is left with the error, which Run records before the
+		// stream is completed), and the error the function returns on that path is that error
+		nw := 0
+		for _, cl := range callsIn(inner) {
+			cc := cl.Common()
+			if !cc.IsInvoke() || cc.Method.Name() != "Write" {
+				continue
+			}
+			call, ok := cl.(*ssa.Call)
+			if !ok {
+				continue
+			}
+			var werr *ssa.Extract
+			for _, ref := range referrers(call) {
+				if ex, ok := ref.(*ssa.Extract); ok && ex.Index == 1 {
+					werr = ex
+				}
+			}
+			if werr == nil {
+				r.Fail("innerRun:write-error-examined", call.Pos(), "the error of conn.Write is discarded")
+				continue
+			}
+			nw++
+			tested := false
+			for _, ref := range referrers(werr) {
+				b, ok := ref.(*ssa.BinOp)
+				if !ok || (b.Op != token.NEQ && b.Op != token.EQL) {
+					continue
+				}
+				for _, r2 := range referrers(b) {
+					ifi, ok := r2.(*ssa.If)
+					if !ok {
+						continue
+					}
+					tested = true
+					fail := ifi.Block().Succs[0]
+					if b.Op == token.EQL {
+						fail = ifi.Block().Succs[1]
+					}
+					reached := feasiblyReaches(ifi.Block(), fail, nil, nil, func(in ssa.Instruction) bool {
+						_, isCb := isCbCall(in)
+						return isCb
+					})
+					r.Check("innerRun:failed-write-completes-nothing", !reached, ifi.Pos(), "after a failed write no stream callback is reachable inside innerRun (the failure is returned, not skipped)")
+					// the returns reachable from the failing edge return this error
+					okRet := true
+					eachInstr(inner, func(in ssa.Instruction) {
+						rt, ok := in.(*ssa.Return)
+						if !ok || len(rt.Results) != 3 {
+							return
+						}
+						if !feasiblyReaches(ifi.Block(), fail, nil, nil, func(x ssa.Instruction) bool { return x == ssa.Instruction(rt) }) {
+							return
+						}
+						has := false
+						results := []ssa.Value{rt.Results[2]}
+						// with a deferred call in the function the results are written to result slots first
+						if ld, isLd := rt.Results[2].(*ssa.UnOp); isLd && ld.Op == token.MUL {
+							if slot, isAl := ld.X.(*ssa.Alloc); isAl {
+								results = nil
+								for _, ref := range referrers(slot) {
+									if st, ok := ref.(*ssa.Store); ok && st.Addr == ssa.Value(slot) {
+										results = append(results, st.Val)
+									}
+								}
+							}
+						}
+						for _, res := range results {
+							for _, vc := range valueCases(res, nil) {
+								if vc.V == ssa.Value(werr) {
+									has = true
+								}
+							}
+						}
+						if !has {
+							okRet = false
+						}
+					})
+					r.Check("innerRun:failed-write-is-returned", okRet, ifi.Pos(), "the error innerRun returns after a failed write can be the write's error")
+				}
+			}
+			r.Check("innerRun:write-error-tested", tested, call.Pos(), "the error of conn.Write is tested")
+		}
+		r.Check("innerRun:write-sites", nw >= 1, inner.Pos(), fmt.Sprintf("%d conn.Write sites", nw))
 	})
 
 	c.Rule("C16.R3", "flusher: WaitGroup.Add(len(backends)) matches one SendMetricsAsync per backend, each callback calls Done exactly once, flushData waits for them", 5, func(r *Rule) {
@@ -508,7 +593,7 @@ func c16(c *Ctx) {
 		r.Check("flushData:waits-for-callbacks", nw == 1, fd.Pos(), "flushData calls sendWg.Wait()")
 	})
 
-	c.Rule("C16.R4", "HTTP collectors: every received result and the cancellation error are appended to the slice given to the callback; one result expected per batch", 9, func(r *Rule) {
+	c.Rule("C16.R4", "HTTP collectors: every received result and the cancellation error are appended to the slice given to the callback; one result expected per batch", 12, func(r *Rule) {
 		// the errors handed to the callback are the ones collected: a deferred *call* of the callback evaluates its
 		// argument when the defer statement runs, i.e. before anything was collected (a deferred function literal
 		// that calls it is fine)
@@ -551,6 +636,15 @@ func c16(c *Ctx) {
 					}
 				})
 				if sel == nil {
+					// a collector that receives results without a select cannot notice cancellation: the senders drop
+					// their result when the context is done, so the callback would never be invoked
+					eachInstr(g, func(in ssa.Instruction) {
+						if rv, ok := in.(*ssa.UnOp); ok && rv.Op == token.ARROW {
+							if ch, isCh := rv.X.Type().Underlying().(*types.Chan); isCh && ch.Elem().String() == "error" {
+								r.Fail(FuncName(fn)+":cancellation-reported", rv.Pos(), "the collector receives results outside a select: it does not watch ctx.Done() and waits for ever for results the cancelled senders drop")
+							}
+						}
+					})
 					continue
 				}
 				key := FuncName(fn)
@@ -716,6 +810,57 @@ func c16(c *Ctx) {
 					}
 				})
 				r.Check(key+":one-result-per-batch", okCnt, g.Pos(), "the collector waits for as many results as sender goroutines were started")
+				// ... and gives up early only on cancellation: the loop around the select is left by its counter test or
+				// on the Done() case, nothing else (senders whose result is no longer awaited block for ever on the
+				// unbuffered result channel and never give their buffer / semaphore slot back)
+				var head *ssa.BasicBlock
+				for b := sel.Block(); b != nil; b = b.Idom() {
+					if body := loopBody(b); body != nil && body[sel.Block()] {
+						head = b
+						break
+					}
+				}
+				if head == nil {
+					r.Fail(key+":collector-loop", sel.Pos(), "the collecting select is not inside a loop")
+				} else {
+					body := loopBody(head)
+					var doneTo *ssa.BasicBlock
+					for k, st := range sel.States {
+						if st.Send != nil {
+							continue
+						}
+						if dc, isCall := st.Chan.(*ssa.Call); isCall && dc.Call.IsInvoke() && dc.Call.Method.Name() == "Done" {
+							_, doneTo = selectCaseEdge(sel, k)
+						}
+					}
+					okExits, why := true, ""
+					for b := range body {
+						for _, sc := range b.Succs {
+							if body[sc] {
+								continue
+							}
+							if doneTo != nil && (b == doneTo || doneTo.Dominates(b) || sc == doneTo) {
+								continue // leaving on cancellation
+							}
+							if len(sc.Instrs) > 0 {
+								if _, isPanic := sc.Instrs[len(sc.Instrs)-1].(*ssa.Panic); isPanic && len(sc.Succs) == 0 {
+									continue // "blocking select matched no case": unreachable
+								}
+							}
+							ifi, isIf := b.Instrs[len(b.Instrs)-1].(*ssa.If)
+							if isIf {
+								if cmp, isCmp := ifi.Cond.(*ssa.BinOp); isCmp && isIntType(cmp.X.Type()) {
+									if _, fromSel := cmp.X.(*ssa.Extract); !fromSel {
+										continue // the counter test
+									}
+								}
+							}
+							okExits = false
+							why = "left from the block at " + w.Pos(firstPos(b))
+						}
+					}
+					r.Check(key+":collector-stops-only-when-done-or-cancelled", okExits, sel.Pos(), "the collecting loop is left only by its counter test or on cancellation "+why)
+				}
 				r.Check(key+":counter-matches-goroutines", nInc == 1, fn.Pos(), fmt.Sprintf("%d sites increment counter together with starting a sender goroutine", nInc))
 			}
 		}
